@@ -707,7 +707,7 @@ class _Gather:
         for k in range(n - 2, -1, -1):
             cond = sor(i == k, i == k - n)
             if isinstance(res, _ND):
-                res = wrap(rnp.frompyfunc(lambda a, b, c=cond: ite(c, a, b), 2, 1)(arr[k], res))
+                res = wrap(rnp.frompyfunc(lambda a, b, c=cond: ite(c, a, b), 2, 1)(_plain(arr[k]), _plain(res)))
             else:
                 res = ite(cond, arr[k], res)
         return res
@@ -755,7 +755,7 @@ class _Gather:
                 if p.ndim == 1:
                     p[k] = ite(cond, value[pos], p[k])
                 else:
-                    p[k] = rnp.frompyfunc(lambda a, b, c=cond: ite(c, a, b), 2, 1)(value[pos], p[k])
+                    p[k] = rnp.frompyfunc(lambda a, b, c=cond: ite(c, a, b), 2, 1)(_plain(value[pos]), _plain(p[k]))
 
 
 def _prep_key(arr, key):
